@@ -43,11 +43,17 @@ pub enum Op {
 
 pub struct C14 {
     pub keys: Keys,
+    /// run as the actor-path part of C07 (capabilities): same executor, requests biased towards
+    /// imports, local writes and exports; violations are reported under C07
+    pub cap_mode: bool,
 }
 
 impl C14 {
     pub fn new() -> Self {
-        C14 { keys: Keys::new(3, 2) }
+        C14 { keys: Keys::new(3, 2), cap_mode: false }
+    }
+    pub fn capabilities() -> Self {
+        C14 { keys: Keys::new(3, 2), cap_mode: true }
     }
     fn gen_req(&self, rng: &mut Rng, client: usize) -> Req {
         let n = if rng.chance(2, 3) { 0 } else { rng.below(3) };
@@ -55,6 +61,18 @@ impl C14 {
         // distinct clients write under distinct key prefixes so that local timestamps never tie
         let mut key = vec![0x70 + client as u8];
         key.extend(gen_key(rng));
+        if self.cap_mode {
+            return match rng.below(16) {
+                0..=2 => Req::Open { n, sync: rng.chance(1, 2), sub: false },
+                3 => Req::Close { n },
+                4..=7 => Req::Local { n, a, key, c: rng.below(3), ts: 0 },
+                8 => Req::Delete { n, a, key, ts: 0 },
+                9..=11 => Req::Import { n, write: rng.chance(1, 2) },
+                12..=13 => Req::Export { n },
+                14 => Req::Drop { n },
+                _ => Req::Remote { n, a, key, c: Some(rng.below(3)), ts: *rng.pick(&[5u64, 9, 10]) },
+            };
+        }
         match rng.below(24) {
             0..=3 => Req::Open { n, sync: rng.chance(1, 2), sub: rng.chance(1, 4) },
             4..=6 => Req::Close { n },
@@ -98,10 +116,13 @@ fn err_kind(e: &anyhow::Error) -> String {
 impl Property for C14 {
     type Op = Op;
     fn id(&self) -> &'static str {
-        "C14"
+        if self.cap_mode { "C07" } else { "C14" }
     }
     fn parallel(&self) -> bool {
         false
+    }
+    fn case_prefix(&self) -> &'static str {
+        if self.cap_mode { "actor-" } else { "" }
     }
     fn rule(&self) -> String {
         "1-3 concurrent clients, each a sequence of 2-12 requests (open with/without sync/subscribe, close, set-sync, subscribe, local insert/delete, remote insert, get, get-many, sync-initial-message, get-state, drop, import, export-secret) over 3 documents that start absent, read-only or writable; the recorded queue order is replayed on the Lean model of the actor; get_state after every request is compared with the history specification (usable iff opens - releases > 0); the store returned by shutdown is dumped; non-trivial = at least two clients interleaved or a document went through open -> close -> reuse".into()
@@ -300,7 +321,27 @@ impl Property for C14 {
         let results = results.lock().unwrap().clone();
         for (ci, i, cmd) in &order {
             let out = results[*ci][*i].clone().unwrap_or_else(|| "no-reply".into());
-            lines.push(Line::model(cmd.clone(), out));
+            lines.push(Line::model(cmd.clone(), out.clone()));
+            // specification (C07): a local write or a secret-key export succeeds iff a write
+            // capability was imported for the document since it was (re-)created
+            let toks: Vec<&str> = cmd.split(' ').collect();
+            let doc = match toks.get(2).copied() {
+                Some("localq") | Some("local") => toks.get(3).and_then(|t| t.split(',').next()).map(|s| s.to_string()),
+                Some("export") => toks.get(3).map(|s| s.to_string()),
+                _ => None,
+            };
+            if let Some(doc) = doc {
+                let writable = if out.starts_with("inserted") || out == "notinserted" || out.starts_with("secret") {
+                    Some("1")
+                } else if out == "err:read-only" {
+                    Some("0")
+                } else {
+                    None
+                };
+                if let Some(wr) = writable {
+                    lines.push(Line::oracle(format!("swritable 1 {doc}"), wr));
+                }
+            }
         }
         // specification: usable iff opens - releases > 0 (observed through get_state)
         let final_states: Vec<String> = rt.block_on(async {
